@@ -947,9 +947,19 @@ impl MigrationState {
     ) {
         for tx in &mut self.transactions {
             if tx.id() == id {
-                tx.pczt = proven_pczt;
-                tx.state = MigrationTxState::Proved;
-                tx.lock_owner = lock_owner;
+                // A proof arriving for a transaction that has already been broadcast or mined is
+                // stale: recording it would move the transaction backwards through its lifecycle
+                // and replace the artifact that is on its way to (or on) the chain.
+                if matches!(
+                    tx.state,
+                    MigrationTxState::AwaitingSignature
+                        | MigrationTxState::Signed
+                        | MigrationTxState::Proved
+                ) {
+                    tx.pczt = proven_pczt;
+                    tx.state = MigrationTxState::Proved;
+                    tx.lock_owner = lock_owner;
+                }
                 break;
             }
         }
